@@ -4,7 +4,7 @@
    measure_number_map / metrical_position_map of partitura/score.py; the same definitions are evaluated
    on every generated part by the correspondence check.
    in_force tbl t v  :=  (k, v) is the entry of tbl with the greatest start k <= t  (Model/C02.v). *)
-From PV Require Import Lib.Base Lib.Round Model.C02 Model.C10 Gen.C10_Tab Proofs.C02_lib Proofs.C10.
+From PV Require Import Lib.Base Lib.Round Model.C02 Model.C10 Model.C10_Impl Gen.C10_Tab Proofs.C02_lib Proofs.C10 Proofs.C10_Impl Proofs.C10_Bar.
 From Coq Require Import QArith.
 #[local] Open Scope Z_scope.
 
@@ -211,3 +211,156 @@ Theorem measure_numbers_example :
   eff_nums [None; Some 3; Some (-2)] = [Some (-2); Some 3; Some (-2)].
 Proof. exact Proofs.C10.eff_nums_example. Qed.
 Print Assumptions measure_numbers_example.
+
+(* ======================================================================================================
+   The maps AS THE CODE BUILDS THEM (Model/C10_Impl.v: the interp1d wrapper of utils/generic.py with its
+   single-sample branch, the sample tables with default rows / doubled single rows / back-fill row, the clef
+   collator, the barline lookups and the Iterable dispatch of metrical_position_map, compute_number_of_staves).
+   query = QScalar t | QVec positions;  result = RScalar v | RVec (one v per position);  None = nan;
+   lift f q = the result with value f t at every position t of q. *)
+
+(* --- the wrapper: for EVERY sample table, a vector query (any length -- also one position --, any order) returns
+   one value per position, the value of the scalar query there; a scalar query returns one value *)
+Theorem wrapper_scalar_vector : forall (A : Type) (tbl : list (Z * A)),
+  (forall l, wrap_prev tbl (QVec l) = RVec (map (scalar_of (wrap_prev tbl)) l)) /\
+  (forall t, exists a, wrap_prev tbl (QScalar t) = RScalar a).
+Proof. exact @Proofs.C10_Impl.wrap_prev_vector. Qed.
+Print Assumptions wrapper_scalar_vector.
+
+(* --- "scalar and array queries agree", all six maps, every part, every vector of positions *)
+Theorem query_shapes_agree : forall cp l,
+  impl_ts cp (QVec l) = RVec (map (scalar_of (impl_ts cp)) l) /\
+  impl_ks cp (QVec l) = RVec (map (scalar_of (impl_ks cp)) l) /\
+  impl_clef cp (QVec l) =
+    map (fun s => RVec (map (scalar_of (wrap_prev (clef_rows cp s))) l)) (zrange 1 (Z.to_nat (c_nstaves cp))) /\
+  impl_measure cp (QVec l) = RVec (map (scalar_of (impl_measure cp)) l) /\
+  impl_number cp (QVec l) = RVec (map (scalar_of (impl_number cp)) l) /\
+  impl_metpos cp (QVec l) = RVec (map (scalar_of (impl_metpos cp)) l).
+Proof. exact Proofs.C10_Impl.query_shapes_agree. Qed.
+Print Assumptions query_shapes_agree.
+
+(* --- the tables as built + the wrapper compute the lookup maps of the theorems above (ts_map_spec, ks_map_spec,
+   clef_map_spec, ...), for scalar and vector queries on the timeline (positions at or after the first point) *)
+Theorem impl_ts_spec : forall cp q, q_ge (c_first cp) q -> impl_ts cp q = lift (ts_map cp) q.
+Proof. exact Proofs.C10_Impl.impl_ts_spec. Qed.
+Print Assumptions impl_ts_spec.
+
+Theorem impl_ks_spec : forall cp q, q_ge (c_first cp) q -> impl_ks cp q = lift (ks_map cp) q.
+Proof. exact Proofs.C10_Impl.impl_ks_spec. Qed.
+Print Assumptions impl_ks_spec.
+
+(* one result per staff 1..number_of_staves, each the lookup in that staff's clefs *)
+Theorem impl_clef_spec : forall cp q, q_ge (c_first cp) q ->
+  impl_clef cp q = map (fun s => lift (clef_staff cp s) q) (zrange 1 (Z.to_nat (c_nstaves cp))).
+Proof. exact Proofs.C10_Impl.impl_clef_spec. Qed.
+Print Assumptions impl_clef_spec.
+
+Theorem impl_clef_scalar : forall cp t, c_first cp <= t ->
+  impl_clef cp (QScalar t) = map (fun row => RScalar (Some row)) (clef_map cp t).
+Proof. exact Proofs.C10_Impl.impl_clef_scalar. Qed.
+Print Assumptions impl_clef_scalar.
+
+(* measure maps: positions at or after the (corrected) start of the first measure; before it scipy gives nan *)
+Theorem impl_measure_spec : forall cp q k0 v0 r, meas_tbl cp = (k0, v0) :: r -> q_ge k0 q ->
+  impl_measure cp q = lift_opt (measure_map cp) q.
+Proof. exact Proofs.C10_Impl.impl_measure_spec. Qed.
+Print Assumptions impl_measure_spec.
+
+Theorem impl_number_spec : forall cp q k0 v0 r, meas_tbl cp = (k0, v0) :: r -> q_ge k0 q ->
+  impl_number cp q = lift (measure_number_map cp) q.
+Proof. exact Proofs.C10_Impl.impl_number_spec. Qed.
+Print Assumptions impl_number_spec.
+
+(* metrical position: the barlines the code looks up through measure_map at the written measure starts are the
+   barlines of the model, PPoly + np.diff + the Iterable dispatch give (t - barline, bar length) *)
+Theorem impl_metpos_spec : forall cp q k0 v0 r, meas_wf (c_meas cp) -> meas_tbl cp = (k0, v0) :: r -> q_ge k0 q ->
+  impl_metpos cp q = lift (metpos cp) q.
+Proof. exact Proofs.C10_Impl.impl_metpos_spec. Qed.
+Print Assumptions impl_metpos_spec.
+
+(* --- THE STATEMENT AT CODE LEVEL: what the code (tables as built + wrapper) returns for a scalar query t on the
+   timeline -- the value of the latest element starting at or before t, of the first one before it, the default *)
+Theorem code_ts_in_force : forall cp t, keys_incr (ts_tbl cp) -> c_first cp <= t ->
+  (ts_tbl cp = [] -> impl_ts cp (QScalar t) = RScalar (Some (4, 4, 4))) /\
+  (forall v, in_force (ts_tbl cp) t v -> impl_ts cp (QScalar t) = RScalar (Some v)) /\
+  (forall t0 v0 r, ts_tbl cp = (t0, v0) :: r -> t < t0 -> impl_ts cp (QScalar t) = RScalar (Some v0)).
+Proof. exact Proofs.C10_Impl.code_ts_in_force. Qed.
+Print Assumptions code_ts_in_force.
+
+Theorem code_ks_in_force : forall cp t, keys_incr (c_kss cp) -> c_first cp <= t ->
+  (c_kss cp = [] -> impl_ks cp (QScalar t) = RScalar (Some (0, 1))) /\
+  (forall v, in_force (c_kss cp) t v -> impl_ks cp (QScalar t) = RScalar (Some v)) /\
+  (forall t0 v0 r, c_kss cp = (t0, v0) :: r -> t < t0 -> impl_ks cp (QScalar t) = RScalar (Some v0)).
+Proof. exact Proofs.C10_Impl.code_ks_in_force. Qed.
+Print Assumptions code_ks_in_force.
+
+(* row s - 1 of the stacked clef_map result is staff s; a staff without clef gives the "none" clef *)
+Theorem code_clef_in_force : forall cp s t, keys_incr (staff_tbl cp s) -> c_first cp <= t -> 1 <= s <= c_nstaves cp ->
+  let row := nth (Z.to_nat (s - 1)) (impl_clef cp (QScalar t)) (RScalar None) in
+  (staff_tbl cp s = [] -> row = RScalar (Some (s, 6, 0, 0))) /\
+  (forall v, in_force (staff_tbl cp s) t v -> row = RScalar (Some v)) /\
+  (forall t0 v0 r, staff_tbl cp s = (t0, v0) :: r -> t < t0 -> row = RScalar (Some v0)).
+Proof. exact Proofs.C10_Impl.code_clef_in_force. Qed.
+Print Assumptions code_clef_in_force.
+
+(* extent, number and position of the measure CONTAINING t (rows after the pickup correction; first_measure_spec /
+   later_measure_spec say which rows those are) *)
+Theorem code_measure_containing : forall cp t k s e n, meas_wf (c_meas cp) ->
+  In (k, (s, e, n)) (meas_tbl cp) -> s <= t < e ->
+  impl_measure cp (QScalar t) = RScalar (Some (s, e)) /\
+  impl_number cp (QScalar t) = RScalar (Some n) /\
+  ((2 <= List.length (c_meas cp))%nat -> meas_contig (c_meas cp) ->
+   impl_metpos cp (QScalar t) = RScalar (Some (t - s, e - s))).
+Proof. exact Proofs.C10_Impl.code_measure_containing. Qed.
+Print Assumptions code_measure_containing.
+
+(* --- number_of_staves: at least 1, at least every staff number carried by a note/rest, clef, direction or words
+   element, and attained by one of them (or 1) -- so clef_map has a row for every staff anything is written on *)
+Theorem nstaves_spec : forall notes clefs dirs words,
+  let n := nstaves_impl notes clefs dirs words in
+  1 <= n /\ (forall s, In (Some s) (notes ++ clefs ++ dirs ++ words) -> s <= n) /\
+  (n = 1 \/ In (Some n) (notes ++ clefs ++ dirs ++ words)).
+Proof. exact Proofs.C10_Impl.nstaves_spec. Qed.
+Print Assumptions nstaves_spec.
+
+(* --- "a pickup is treated as ending a FULL BAR": full_bar (the length pickup_length / first_measure_spec round)
+   is the number of beats of the signature in force (musical beats in musical-beat mode) times the length of
+   the first beat after s0, whenever that beat is a whole number d of divisions inside the timeline;
+   beats_between is C02's exact beat count (sum over the divisions of beat_type/4 (x musical/notated beats) / q) *)
+Theorem full_bar_whole_beat : forall cp s0 d, wf (c_part cp) ->
+  p_first (c_part cp) <= s0 -> 0 <= d -> s0 + d <= p_last (c_part cp) ->
+  (beats_between (bmode cp) (c_part cp) s0 (s0 + d) == 1)%Q ->
+  exists fb, full_bar cp s0 = Some fb /\ (fb == inject_Z (bar_beats cp s0) * inject_Z d)%Q.
+Proof. exact Proofs.C10_Bar.full_bar_whole_beat. Qed.
+Print Assumptions full_bar_whole_beat.
+
+Theorem full_bar_constant_meter : forall cp s0 d q f, wf (c_part cp) ->
+  p_first (c_part cp) <= s0 -> 0 <= d -> s0 + d <= p_last (c_part cp) -> 0 < q ->
+  (forall k, s0 <= k < s0 + d -> div_at (c_part cp) k = q /\ (bt_at (bmode cp) (c_part cp) k == f)%Q) ->
+  (inject_Z d / inject_Z q * f == 1)%Q ->
+  exists fb, full_bar cp s0 = Some fb /\ (fb == inject_Z (bar_beats cp s0) * inject_Z d)%Q.
+Proof. exact Proofs.C10_Bar.full_bar_constant_meter. Qed.
+Print Assumptions full_bar_constant_meter.
+
+(* --- non-vacuity: the worked part queried with a permuted vector with a repeated position, one-element vectors,
+   a single-measure part through the single-sample branch, staff numbers with gaps and missing staffs;
+   its hypotheses for full_bar_whole_beat hold and give 4 x 4 = 16 divisions *)
+Theorem example_queries :
+  impl_ts ex10 (QVec [25; 0; 25]) = RVec [Some (4, 4, 4); Some (4, 4, 4); Some (4, 4, 4)] /\
+  impl_ks ex10 (QVec [20; 19]) = RVec [Some (2, 1); Some (-3, -1)] /\
+  impl_ks ex10 (QScalar 19) = RScalar (Some (-3, -1)) /\
+  impl_clef ex10 (QVec [25]) = [RVec [Some (1, 1, 4, 0)]; RVec [Some (2, 6, 0, 0)]] /\
+  impl_measure ex10 (QVec [2; 25]) = RVec [Some (-12, 4); Some (20, 36)] /\
+  impl_number ex10 (QVec [25]) = RVec [Some (Some 1)] /\
+  impl_metpos ex10 (QVec [25; 2]) = RVec [Some (5, 16); Some (14, 16)] /\
+  impl_metpos ex10 (QScalar 2) = RScalar (Some (14, 16)) /\
+  impl_measure ex10_single (QVec [3]) = RVec [Some (0, 16)] /\
+  nstaves_impl [Some 1; None] [Some 2] [] [Some 4; None] = 4.
+Proof. exact Proofs.C10_Impl.ex10_queries. Qed.
+Print Assumptions example_queries.
+
+Theorem example_full_bar :
+  wf (c_part ex10) /\ (beats_between (bmode ex10) (c_part ex10) 0 (0 + 4) == 1)%Q /\ bar_beats ex10 0 = 4 /\
+  exists fb, full_bar ex10 0 = Some fb /\ (fb == 16)%Q.
+Proof. exact Proofs.C10_Bar.ex10_full_bar. Qed.
+Print Assumptions example_full_bar.
